@@ -62,7 +62,9 @@ ReplyVerdict(f, handler, out) ==
            [] cls = "outoflimit" ->
                  IF IsExceptionFor(f, out) /\ out[9] = 3 THEN "ok" ELSE "out-of-range-reply-is-not-exception-03"
            [] cls = "malformed" ->
-                 IF IsExceptionFor(f, out) THEN "ok" ELSE "malformed-request-reply-is-not-an-exception-for-the-request"
+                 \* the statement does not say that a structurally inconsistent request must be answered with an
+                 \* exception; what is sent must be addressed (checked above) and, if it is an exception, well formed
+                 IF out[8] >= 128 /\ ~IsExceptionFor(f, out) THEN "exception-reply-to-malformed-request-not-well-formed" ELSE "ok"
            [] OTHER -> "ok"
 
 \* C15: frames (all legal, supported) and the number of stream bytes delivered so far
